@@ -1,6 +1,7 @@
 pub mod disk;
 pub mod fntable;
 pub mod keykeeper;
+pub mod lifecycle;
 pub mod provision;
 pub mod rig;
 pub mod robust;
